@@ -85,12 +85,12 @@ PLANS = {
   'deadline': {'quick': 200, 'thorough': 2700}, 'assumptions': A_E1,
  },
  'C15': {
-  'level': 'exploration', 'steps': [e1('len', 84)],
+  'level': 'exploration', 'steps': [e1('len', 84), e1('big', 5, tiers=('thorough',))],
   'eval_stats': ['streams'], 'distinct_key': 'len_shape',
   'rule': "non-initial-state exploration: after FIRST(m0) came back idle for every residue m0 in [0,B), total_length is advanced by a multiple of the block size so that the running total is delta bytes below T in {2^29, 2^32, 2^32+2^29}; then all (l1,l2) UPDATE/LAST segmentations crossing T; per algorithm x family; digest compared with the reference hash given the same length offset, total_length with the sum",
   'bound': {'quick': '9 delta values per residue, l1 step 3, l2 step 5', 'thorough': 'all delta in [1,2B], all l1, l2'},
   'deadline': {'quick': 200, 'thorough': 2700},
-  'assumptions': A_COMMON + ["the teleported state is equivalent to the genuinely reached one because the context layer uses total_length only through total_length mod B and the padding length field; validated in the thorough tier by genuine > 4 GiB streams when built"],
+  'assumptions': A_COMMON + ["the teleported state is equivalent to the genuinely reached one because the context layer uses total_length only through total_length mod B and the padding length field; validated in the thorough tier by one genuine 2^32+2^29+79-byte stream per algorithm x family (periodic data through aliased memfd mappings; single submit of 2^32-1 bytes)"],
  },
  'C08': {
   'level': 'fault_enumeration',
@@ -122,10 +122,10 @@ PLANS = {
  'C20': {
   'level': 'exploration',
   'steps': [e3('gcm'), e3('xts', 8, 16), e3('cbc', 4, 8), e3('keyexp', 2, 4), e2('mh1', 8, 16), e2('mh256', 8, 16), e2('mur', 8, 16), e2('roll', 16, 16), e2('gcms', 16, 16),
-            e1('explore', 112, ['--d4=1', '--d8=1', '--d16=1'])],
+            e1('explore', 112, ['--d4=1', '--d8=1', '--d16=1']), e1('seg', 112)],
   'eval_stats': ['pairs'], 'distinct_key': None,
   'rule': "paired executions (self-composition): every explored case is executed under two environments that agree on the declared inputs and differ in the hidden ones - output-buffer prefill (0x00 / 0xFF), bytes of objects the API has not yet defined (manager and contexts before init/FIRST, GCM context before init, mh/stitched context before init, the unused tail of the rolling-hash history), trampoline poison of rax, r10, r11, unused argument registers, upper halves of 32-bit arguments, zmm0-31, k0-7, arithmetic flags and 64 KiB of dead stack; observables (output bytes, tags, digests, offsets, return values; for managers: which context comes back when, status, error, total length, digest, user data) must be identical; for the manager the second image is driven in lock step through the transitions chosen by the first and makes no pruning decisions",
-  'bound': {'quick': 'AES len<=300 (+2048, 4097); mh l1<=1040 (every 4th l2); rolling w+70; GCM streaming sum<=40; manager exploration d<=1', 'thorough': 'thorough grids'},
+  'bound': {'quick': 'AES len<=300 (+2048, 4097); mh l1<=1040 (every 4th l2); rolling w+70; GCM streaming sum<=40; manager exploration d<=1; hash segmentations (l1,l2) in [0,2B+1]^2 x 4 occupancies', 'thorough': 'thorough grids'},
   'deadline': {'quick': 240, 'thorough': 2700}, 'assumptions': A_COMMON + ["internal fields are compared only through behaviour (e.g. GCM init stores an undefined xmm2^xmm3 into partial_block_enc_key, which is rewritten before it is read)"],
  },
  'C12': {
